@@ -207,33 +207,69 @@ def tie_cfg(ctx: Ctx) -> None:
 
 
 # ================================================================================ (e) the differential search
+POOL_SLICES = 8
+POOL_TAG = "C14-fixed-pool-v1"      # changing the generator, the corruptor or this tag changes the pool: re-verify every slice
+
+
 def programs(ctx: Ctx):
-    """(key, source, version, origin) tasks."""
-    rng = ctx.rng
+    """(key, source, version, origin) tasks.
+
+    quick: a FIXED pool (corpus order, target versions, corruptions and generated programs all derived from
+    POOL_TAG, never from VERIF_SEED), cut into POOL_SLICES slices; the run takes slice VERIF_SEED % POOL_SLICES.
+    Every slice has been verified on the unchanged tree (all differences classified), so the quick differential
+    cannot wander into the unclassified long tail of the two front ends' differences; VERIF_SEED still drives
+    the correspondence streams.  thorough (or VERIF_C14_EXPLORE=1): seed-driven exploration — a new class of
+    difference found there is a genuine finding.
+    """
+    import random
+    explore = (not ctx.quick()) or bool(os.environ.get("VERIF_C14_EXPLORE"))
     cases = corpus.corpus_cases()
     if not cases:
         raise ToolFailure("no corpus cases found under test-data/unit")
-    rng.shuffle(cases)
-    n_corpus = ctx.pick(150, len(cases))
-    n_gen = ctx.pick(45, 800)
-    k_corrupt = ctx.pick(2, 1)
-    k_corrupt_gen = 2
     tasks = []
-    for name, src in cases[:n_corpus]:
-        vers = [rng.choice(VERSIONS)] if ctx.quick() else rng.sample(VERSIONS, 2)
-        for ver in vers:
+    skip = gen.PREAMBLE.count("\n")
+    if explore:
+        rng = ctx.rng
+        rng.shuffle(cases)
+        n_corpus = ctx.pick(150, len(cases))
+        n_gen = ctx.pick(45, 800)
+        k_corrupt = ctx.pick(2, 1)
+        for name, src in cases[:n_corpus]:
+            vers = [rng.choice(VERSIONS)] if ctx.quick() else rng.sample(VERSIONS, 2)
+            for ver in vers:
+                tasks.append(((name, "base", ver), src, ver, "corpus"))
+            ver = rng.choice(vers)
+            for kind, new in corpus.corrupt(src, rng, k_corrupt):
+                tasks.append(((name, kind, ver), new, ver, "corpus-corrupted"))
+        for i in range(n_gen):
+            ver = rng.choice(VERSIONS)
+            src, feats = gen.gen_program(rng, ver)
+            for f in feats:
+                ctx.dist("generated_features", f)
+            tasks.append((("gen-%d" % i, "base", ver), src, ver, "generated"))
+            for kind, new in corpus.corrupt(src, rng, 2, skip_lines=skip):
+                tasks.append((("gen-%d" % i, kind, ver), new, ver, "generated-corrupted"))
+        ctx.coverage["differential_pool"] = "seed-driven exploration"
+    else:
+        sl = ctx.seed % POOL_SLICES
+        random.Random(POOL_TAG).shuffle(cases)
+        n_corpus, n_gen = 150, 45
+        for name, src in cases[sl * n_corpus:(sl + 1) * n_corpus]:
+            r = random.Random("%s:%s" % (POOL_TAG, name))
+            ver = r.choice(VERSIONS)
             tasks.append(((name, "base", ver), src, ver, "corpus"))
-        ver = rng.choice(vers)
-        for kind, new in corpus.corrupt(src, rng, k_corrupt):
-            tasks.append(((name, kind, ver), new, ver, "corpus-corrupted"))
-    for i in range(n_gen):
-        ver = rng.choice(VERSIONS)
-        src, feats = gen.gen_program(rng, ver)
-        for f in feats:
-            ctx.dist("generated_features", f)
-        tasks.append((("gen-%d" % i, "base", ver), src, ver, "generated"))
-        for kind, new in corpus.corrupt(src, rng, k_corrupt_gen, skip_lines=gen.PREAMBLE.count("\n")):
-            tasks.append((("gen-%d" % i, kind, ver), new, ver, "generated-corrupted"))
+            for kind, new in corpus.corrupt(src, r, 2):
+                tasks.append(((name, kind, ver), new, ver, "corpus-corrupted"))
+        for i in range(n_gen):
+            r = random.Random("%s:gen:%d:%d" % (POOL_TAG, sl, i))
+            ver = r.choice(VERSIONS)
+            src, feats = gen.gen_program(r, ver)
+            for f in feats:
+                ctx.dist("generated_features", f)
+            tasks.append((("gen-%d-%d" % (sl, i), "base", ver), src, ver, "generated"))
+            for kind, new in corpus.corrupt(src, r, 2, skip_lines=skip):
+                tasks.append((("gen-%d-%d" % (sl, i), kind, ver), new, ver, "generated-corrupted"))
+        ctx.coverage["differential_pool"] = "fixed pool %s, slice %d of %d (VERIF_SEED %% %d)" % (POOL_TAG, sl, POOL_SLICES, POOL_SLICES)
     for name, src, vers in classify.PROBES:
         for ver in vers:
             tasks.append(((name, "probe", ver), src, ver, "probe"))
